@@ -53,6 +53,8 @@ def parseConfig (fs : List (String × String)) : Option (Config × DataClass) :=
       squish := ← optRat fs "squish" z.squish
       speTol := ← optRat fs "spe_tol" z.speTol
       faEps := ← optRat fs "fa_eps" z.faEps
+      nullShift := ← optRat fs "nullshift" z.nullShift
+      klleShift := ← optRat fs "klleshift" z.klleShift
       timesteps := ← optInt fs "timesteps" z.timesteps
       speUpd := ← optInt fs "spe_upd" z.speUpd
       maxIter := ← optInt fs "maxit" z.maxIter
@@ -67,14 +69,20 @@ def answer (line : String) : String :=
   match parseConfig fs with
   | none => "bad-case"
   | some (c, data) =>
-    let p := prediction c
-    -- a keyword carrying a value of the wrong C++ type is rejected by stichwort before anything else
-    let p := if (field? fs "wrongtype").isSome && c.N > 0 then
-      ({ validated := false, ok := none, throws := [Err.wrong_parameter_type_error] } : Prediction) else p
+    let p := predictionOn c data
+    -- the parameter set is checked before anything else: a keyword given twice, then (when the defaults are merged)
+    -- a keyword carrying a value of the wrong C++ type
+    let special : Option Err :=
+      if (field? fs "dupkw").isSome then some Err.multiple_parameter_error
+      else if (field? fs "wrongtype").isSome then some Err.wrong_parameter_type_error else none
+    let general := mustBeFinite c data && special.isNone
+    let p := match special with
+      | some e => ({ validated := false, ok := none, throws := [e] } : Prediction)
+      | none => p
     let ok := match p.ok with
       | none => "-"
       | some (r, cc) => s!"{r}x{cc}"
     let sites := if p.validated then violatedSites c else []
-    s!"validated={if p.validated then 1 else 0} ok={ok} throws={showList (p.throws.map Err.name)} finite={if mustBeFinite c data then 1 else 0} sites={showList sites}"
+    s!"validated={if p.validated then 1 else 0} ok={ok} throws={showList (p.throws.map Err.name)} finite={if general then 1 else 0} sites={showList sites}"
 
 def main : IO Unit := runLines answer
